@@ -120,6 +120,45 @@ def doList (q : Option Bytes) : List String :=
   let ps := queryParams q
   [s!"P list rc=OK n={ps.length}"] ++ ps.flatMap (showParam "item" qb)
 
+/-- `q_lists <d|s><cap> <nseed> <arg>…`: the list forms called one after the other on ONE output list that starts
+with `nseed` default entries; arg = query hex | `null` | `u<uri hex>` (through `aws_uri_query_string_params`) -/
+def seedPairs (n : Nat) : List (Bytes × Bytes) :=
+  (List.range n).map (fun i => ([100, 107, UInt8.ofNat (48 + i)], [100, 118, UInt8.ofNat (48 + i)]))
+
+def pairsOf (q : Option Bytes) : List (Bytes × Bytes) :=
+  (queryParams q).map (fun p => (p.key.bytes (q.getD []), p.value.bytes (q.getD [])))
+
+def listsGo (cap : Option Nat) : List (Bytes × Bytes) → List String → List String → Option (List (Bytes × Bytes) × List String)
+  | out, rcs, [] => some (out, rcs)
+  | out, rcs, a :: rest =>
+    if a.startsWith "u" then
+      match parseHex? (a.drop 1).toString with
+      | none => none
+      | some s => match parse s with
+        | .error _ => listsGo cap out (rcs ++ ["PARSE"]) rest
+        | .ok u =>
+          let (o2, ok) := pushParams cap out (pairsOf (u.queryBytes s))
+          listsGo cap o2 (rcs ++ [if ok then "OK" else "AWS_ERROR_LIST_EXCEEDS_MAX_SIZE"]) rest
+    else
+      match (if a == "null" then some none else (parseHex? a).map some) with
+      | none => none
+      | some q =>
+        let (o2, ok) := pushParams cap out (pairsOf q)
+        listsGo cap o2 (rcs ++ [if ok then "OK" else "AWS_ERROR_LIST_EXCEEDS_MAX_SIZE"]) rest
+
+def doLists (mode nseed : String) (args : List String) : List String :=
+  let capN := (mode.drop 1).toString.toNat?
+  match capN, nseed.toNat? with
+  | some c, some n =>
+    if n > 9 ∨ args.isEmpty ∨ ¬ (mode.startsWith "d" ∨ mode.startsWith "s") ∨ (mode.startsWith "s" ∧ c < n) ∨ c = 0 then ["bad-op"] else
+    let cap : Option Nat := if mode.startsWith "s" then some c else none
+    match listsGo cap (seedPairs n) [] args with
+    | none => ["bad-op"]
+    | some (out, rcs) =>
+      [s!"P lists rcs={",".intercalate rcs} n={out.length}"] ++
+        out.map (fun kv => s!"P litem key={hexOf kv.1} value={hexOf kv.2}")
+  | _, _ => ["bad-op"]
+
 def parseQ? (s : String) : Option (Option Bytes) :=
   if s == "null" then some none else (parseHex? s).map some
 
@@ -144,6 +183,7 @@ def step (_ : Unit) (t : List String) : Unit × List String :=
     | ["q_iter", h] => match parseQ? h with
       | some q => doIter q
       | none => ["bad-op"]
+    | "q_lists" :: mode :: nseed :: args => doLists mode nseed args
     | ["q_list", h] => match parseQ? h with
       | some q => doList q
       | none => ["bad-op"]
